@@ -62,6 +62,16 @@ class C04(Prop):
                         ops.append(op)
                     slow.append({"id": 0, "monitor_only": "wait-fault", "script": {"children": [dict(c0), dict(c0), dict(c0)], "spawn_fail": [], "signal_fail": [], "kill_fail": [], "wait_fail": wf},
                                  "ops": ops, "waiters": 1, "tail": 1000})
+        # a signal call that fails with "no such process" (the child has left its group, or a wrapper says so): the child handle is still
+        # there to be reaped -- nothing is spawned over it
+        for nm in ("try_restart_with_signal", "restart_with_signal", "stop_with_signal", "signal"):
+            for c0 in ({"self_exit": None, "ignore_all": True}, {"self_exit": 200, "ignore_all": True}):
+                op1 = {"at": 40, "op": nm, "sig": "Terminate", "yield": True}
+                if "with_signal" in nm:
+                    op1["grace"] = 30
+                ops = [{"at": 0, "op": "start", "yield": True}, op1, {"at": 120, "op": "start", "yield": True}, {"at": 160, "op": "try_restart", "yield": True}]
+                slow.append({"id": 0, "monitor_only": "signal-esrch", "script": {"children": [dict(c0), dict(c0), dict(c0)], "spawn_fail": [], "signal_fail": [0], "kill_fail": [], "signal_errno": 3},
+                             "ops": ops, "waiters": 1, "tail": 1000})
         c = job_check(self, "thorough" if deep else tier, seed, monitor, slow)
         if not c.errors:
             mt_check(c, "c04", seed, 24 if tier == "quick" and not deep else 300, mt_monitor_overlap)
